@@ -26,6 +26,8 @@ func init() {
 			{"C11/gauges", "every gauge Inc paired with Dec of the same gauge on all exits", c11Gauges},
 			{"C11/relay-blocking", "the relay goroutine blocks only in operations that closing the connections ends: no channel send whose receiver can have gone", c11RelayBlocking},
 			{"C11/framer-bounded", "unframeable bytes end the packet loop: no unbounded wait for a client-declared size", c11FramerBounded},
+			{"C11/transport-close", "Close of either transport closes the connection on every path", func(c *Ctx) { transportCloseCloses(c, "C11/transport-close") }},
+			{"C11/lock-pairing", "every lock taken in the protocol package is released on all exits (a writer that returns with the tunnel's write mutex held blocks the teardown for ever)", func(c *Ctx) { lockPairingIn(c, "C11/lock-pairing", protoPkg) }},
 		},
 	})
 }
